@@ -15,7 +15,7 @@ import subprocess
 import sys
 import time
 
-from . import build, configs, gen, llir, ops, runner, known, sysconsts, special, memops
+from . import build, configs, gen, llir, ops, runner, known, sysconsts, special, memops, validate
 
 ROOT = os.path.dirname(build.HERE)
 EVIDENCE = os.path.join(ROOT, 'evidence')
@@ -104,6 +104,7 @@ def run_wrapper_property(prop, tier, seed, a, t0, extra_tasks=None, extra_eviden
     dropped_all = []
     n_dedup = 0
     per_cfg_counts = {}
+    validation = {'cases': 0, 'skipped': 0, 'mismatches': [], 'errors': [], 'wall_s': 0.0}
     for cfg in cfgs:
         ws = gen.wrappers_for(cfg, [prop], tier, **(gen_kwargs or {})) + memops.wrappers_for(cfg, [prop], tier)
         if a.ops:
@@ -119,6 +120,16 @@ def run_wrapper_property(prop, tier, seed, a, t0, extra_tasks=None, extra_eviden
         for w, err in dropped:
             dropped_all.append({'config': cfg.name, 'wrapper': w['name'], 'error': err[:200]})
         per_cfg_counts[cfg.name] = len(ok)
+        # translator validation on a sample of this configuration's wrappers (native g++ build vs interpreter in concrete mode)
+        try:
+            tv = time.time()
+            vr = validate.validate(cfg, mod, ok, seed, per_wrapper=4, max_wrappers=40 if tier == 'quick' else 400)
+            validation['cases'] += vr['cases']
+            validation['skipped'] += vr['skipped']
+            validation['mismatches'] += vr['mismatches']
+            validation['wall_s'] += time.time() - tv
+        except Exception as e:
+            validation['errors'].append('%s: %s' % (cfg.name, str(e)[-300:]))
         for w in ok:
             h = fn_hash(mod, w['name'])
             key = (h, oracle_key(w), w['type'], w['K'], w['scalar'])
@@ -145,7 +156,22 @@ def run_wrapper_property(prop, tier, seed, a, t0, extra_tasks=None, extra_eviden
             print('  ... %d/%d' % (done, total), flush=True)
 
     results = runner.run_pool(tasks, nproc=a.jobs, hard_s=budget['hard_s'], progress=progress)
-    return finish(prop, tier, seed, a, t0, tasks, results, compile_info, dropped_all, n_dedup, ladder, kf, extra_evidence)
+    bad_wrappers = {m['wrapper'] for m in validation['mismatches']}
+    for m in validation['mismatches'][:20]:
+        print('ENCODING-MISMATCH (interpreter vs native build, verdicts for this wrapper are not trusted): %s' % m, flush=True)
+    for e in validation['errors']:
+        print('translator validation could not run: %s' % e, flush=True)
+    for r in results:
+        if r and r.get('name') in bad_wrappers and r.get('status') in ('ok', 'known'):
+            r['status'] = 'undecided'
+            r['detail'] = 'translator validation mismatch: verdict not trusted'
+            r['undecided'] = [{'kind': 'all', 'desc': 'translator validation mismatch'}]
+    ev = dict(extra_evidence or {})
+    ev['translator_validation'] = {'cases_compared': validation['cases'], 'skipped_ub_inputs': validation['skipped'], 'mismatches': validation['mismatches'][:50],
+                                   'errors': validation['errors'], 'wall_s': round(validation['wall_s'], 1),
+                                   'how': 'sample of wrappers per configuration, lattice + seeded random inputs, g++ -O2 native build vs interpreter in concrete mode'}
+    ev['traces_validated_against_impl'] = validation['cases']
+    return finish(prop, tier, seed, a, t0, tasks, results, compile_info, dropped_all, n_dedup, ladder, kf, ev)
 
 
 def finish(prop, tier, seed, a, t0, tasks, results, compile_info, dropped_all, n_dedup, ladder, kf, extra_evidence=None):
@@ -261,7 +287,7 @@ def write_evidence(prop, tier, seed, wall, agg, status, stime, decided_by, viola
         'wrapper_status': status,
         'states': sum((f.get('paths') or 0) for f in funcs) or 1,
         'transitions': sum((r.get('steps') or 0) for r in results if r) or 1,
-        'traces_validated_against_impl': len(violations) + len(known_hits) + len(unconfirmed),
+        'traces_validated_against_impl': len(violations) + len(known_hits) + len(unconfirmed) + int((extra or {}).get('traces_validated_against_impl', 0)),
         'samples': samples or [{'note': 'no wrapper in scope'}],
         'bounds': 'all input values of every encoded wrapper (no value bound); loops are unrolled by execution up to their own trip count; '
                   'template constants: quick = boundary set, thorough = all',
@@ -282,7 +308,9 @@ def write_evidence(prop, tier, seed, wall, agg, status, stime, decided_by, viola
         'exhaustive': False,
     }
     if extra:
-        cov.update(extra)
+        ex2 = dict(extra)
+        ex2.pop('traces_validated_against_impl', None)
+        cov.update(ex2)
     ev = {'property_id': prop, 'tier': tier, 'seed': seed, 'level': 'model_checking', 'coverage': cov,
           'assumptions': ASSUMPTIONS, 'wall_s': round(wall, 1), 'violations': len(violations)}
     with open(os.path.join(EVIDENCE, prop + '.json'), 'w') as f:
